@@ -13,6 +13,14 @@ import warnings
 def main():
     prop, tier, seed, shard, nshards, out = sys.argv[1:7]
     faulthandler.enable()
+    try:
+        # a changed tree may loop for ever while allocating (e.g. a cyclic chain followed by Powertrain()): the address space of a
+        # shard is capped so that such a run ends in MemoryError (a crash = inconclusive) long before it threatens the machine
+        import resource
+        lim = int(float(os.environ.get('VERIF_SHARD_MEM_GB', '4')) * 2 ** 30)
+        resource.setrlimit(resource.RLIMIT_AS, (lim, lim))
+    except Exception:
+        pass
     from vf import core
     ctx = core.Ctx(prop, tier, int(seed), int(shard), int(nshards))
     base = os.environ.get('VERIF_SCRATCH', '/var/tmp')
